@@ -17,7 +17,9 @@ static void init(void){ if(inited) return; inited=1; const char*p=getenv("VSHIM_
   if(getenv("VSHIM_EXDEV")) exdev=1; }
 static void lg(const char*fmt,...){ char b[512]; va_list a; va_start(a,fmt); int l=vsnprintf(b,sizeof b,fmt,a); va_end(a); if(logfd>=0){ ssize_t(*w)(int,const void*,size_t)=dlsym(RTLD_NEXT,"write"); w(logfd,b,l);} }
 /* returns 1 if this call must fail */
-static int tick(const char*name,const char*arg){ init(); int k=n++; int f=(k==fk); lg("%d %s %s%s\n",k,name,arg?arg:"",f?(fshort?" <SHORT>":" <FAULT>"):""); if(f&&!fshort) errno=ferr; return f; }
+#include <signal.h>
+static int tick(const char*name,const char*arg){ init(); int k=n++; { const char*pp=getenv("VSHIM_PAUSE"); if(pp&&atoi(pp)==k){ const char*cmd=getenv("VSHIM_PAUSE_CMD"); lg("%d %s PAUSED\n",k,name); char*ld=getenv("LD_PRELOAD"); char save[512]=""; if(ld){strncpy(save,ld,511); unsetenv("LD_PRELOAD");} int rc=system(cmd); lg("other-party rc=%d\n",rc); if(save[0]) setenv("LD_PRELOAD",save,1);} }
+  { const char*kk=getenv("VSHIM_KILL"); if(kk&&atoi(kk)==k){ lg("%d %s KILLED-BEFORE\n",k,name); kill(getpid(),SIGKILL);} } int f=(k==fk); lg("%d %s %s%s\n",k,name,arg?arg:"",f?(fshort?" <SHORT>":" <FAULT>"):""); if(f&&!fshort) errno=ferr; return f; }
 #define REAL(ret,name,...) static ret(*r)(__VA_ARGS__); if(!r) r=dlsym(RTLD_NEXT,#name)
 int openat(int d,const char*p,int fl,...){ REAL(int,openat,int,const char*,int,...); mode_t m=0; if(fl&O_CREAT){va_list a;va_start(a,fl);m=va_arg(a,int);va_end(a);} if(tick(fl&O_CREAT?"openat_creat":"openat",p)&&!fshort) return -1; return r(d,p,fl,m); }
 int open(const char*p,int fl,...){ REAL(int,open,const char*,int,...); mode_t m=0; if(fl&O_CREAT){va_list a;va_start(a,fl);m=va_arg(a,int);va_end(a);} if(!inited&&!getenv("VSHIM_LOG")) return r(p,fl,m); if(tick("open",p)&&!fshort) return -1; return r(p,fl,m); }
